@@ -5,4 +5,5 @@ INVARIANT T2_Sizes
 INVARIANT T3_ReaderReadsBack
 INVARIANT T4_OptionalM
 INVARIANT T5_Index
+INVARIANT T6_Truncation
 CHECK_DEADLOCK FALSE
